@@ -298,6 +298,26 @@ func (s *Solver) Pop() { s.send("(pop 1)\n") }
 // GetValues evaluates scalar terms in the current model (after Check(..., keep=true) == Sat).
 func (s *Solver) GetValues(terms []*Term) []uint64 {
 	out := make([]uint64, len(terms))
+	// terms mentioning symbols the solver has never seen: define them and re-check
+	var sbd strings.Builder
+	for _, t := range terms {
+		if !s.emitted[t] {
+			s.emit(t, &sbd)
+		}
+	}
+	if sbd.Len() > 0 {
+		sbd.WriteString("(check-sat)\n")
+		s.send(sbd.String())
+		for {
+			line := s.readLine()
+			if line == "sat" {
+				break
+			}
+			if line == "unsat" || line == "unknown" || strings.HasPrefix(line, "(error") {
+				panic(fmt.Sprintf("get-value: re-check after late declarations answered %q", line))
+			}
+		}
+	}
 	const chunk = 256
 	for base := 0; base < len(terms); base += chunk {
 		end := min(base+chunk, len(terms))
